@@ -9,7 +9,9 @@ the fact that the pair popped after the repair loop is a GLOBAL minimum.
                          priority (single, complete, average, weighted, Ward): the update of two
                          values `≥ p` is `≥ p` (for Ward additionally `p ≥` the merged distance).
                          Proved for single and complete; follows from `Spec.Reducible` for the four
-                         methods that do not read the merged distance (`lbClosed_of_reducible`).
+                         methods that do not read the merged distance (`lbClosed_of_reducible`);
+                         proved for the clamped average and the guarded, clamped Ward from
+                         `OrderLaws` alone (`lbClosed_average`, `lbClosed_ward`).
 * `rescanFold_min`       the rescan of a row computes a lower bound of the row.
 * `genericRepair_lb`     the repair loop keeps `LB` and ends with an exact top row.
 * `generic_pop_min`      an exact top row `a` gives a globally minimal entry `M[a, nearest a]`.
@@ -32,8 +34,8 @@ def BeqLe (α : Type) [Num α] : Prop := ∀ a b : α, Num.beq a b = true → Nu
 /-- The update of method `m` never falls below a common lower bound `p` of its two arguments
 (all values good; positive sizes; for the methods that read the merged distance: that distance is
 good and `≤ p`).  True in exact arithmetic for single, complete, average, weighted, Ward; for the
-clamped average in every ordered number type (`lbClosed_average`); not under float rounding for
-weighted and Ward; not needed for centroid and median. -/
+clamped average and the guarded, clamped Ward in every ordered number type (`lbClosed_average`,
+`lbClosed_ward`); not under float rounding for weighted; not needed for centroid and median. -/
 def LBClosed (G : α → Prop) (m : Method) : Prop :=
   ∀ (sizes : Array Nat) (sa sb : Nat) (dist : α) (x : Nat) (va vb v p : α),
     (∀ i (h : i < sizes.size), 0 < sizes[i]) →
@@ -74,6 +76,20 @@ theorem lbClosed_of_reducible {G : α → Prop} (gs : GoodSet G) {m : Method}
 number type and for every good set — no exact arithmetic (`Spec.reducible_average`). -/
 theorem lbClosed_average (L : OrderLaws α) {G : α → Prop} (gs : GoodSet G) : LBClosed G .average :=
   lbClosed_of_reducible gs rfl (reducible_average L)
+
+/-- The guarded, CLAMPED Ward update (`method::ward` after the second `fix:` commit) is `LBClosed` in
+every ordered number type and for every good set — no exact arithmetic.  `LBClosed` supplies exactly
+the guarded situation: the merged distance is `≤ p` and both arguments are `≥ p`, so
+`¬ least < dist` and the clamp keeps the result `≥ least ≥ p` (`Gen.ward_not_lt`). -/
+theorem lbClosed_ward (L : OrderLaws α) {G : α → Prop} (gs : GoodSet G) : LBClosed G .ward := by
+  intro sizes sa sb dist x va vb v p _ _ hd gva gvb gp h h1 h2
+  cases hx : aget sizes x with
+  | error e => simp [updFn, hx, bind, Except.bind] at h
+  | ok sx =>
+    simp only [updFn, hx, bind, Except.bind, pure, Except.pure, Except.ok.injEq] at h
+    subst h
+    exact Gen.ward_not_lt L sa sb sx (gs.notNaN _ gva) (gs.notNaN _ gvb) (gs.notNaN _ gp)
+      (hd rfl).2 h1 h2
 
 /-! ### Order helpers -/
 
